@@ -402,6 +402,9 @@ RoundTripAny == (Expanded /\ lg2 # <<>> /\ Len(path) >= 2 /\ InverseGrowth(lg, l
 
 (* ------------------------------------------- observation ------------------------------------------------- *)
 NameOf(b, i) == IF i = 0 THEN "" ELSE CNames(b)[i]
+\* mass relative to the initial mass; not observed in a half-updated (broken) assembly: the ArithmeticError leaves before
+\* Component.clearCache, so getMass() there mixes the old volume with the new densities
+ObsMass(b, i) == IF broken THEN RZero ELSE RDiv(MassOf(b, i), RInt(A.hs[b]))
 Sq(x) == RMul(x, x)
 Obs == [zb |-> zb, zt |-> zt, h |-> h, mesh |-> mesh, placed |-> placed, broken |-> broken, err |-> err,
         total |-> zt[NBk], hsum |-> RSumSeq(h), fluid |-> ROne,
@@ -412,7 +415,7 @@ Obs == [zb |-> zb, zt |-> zt, h |-> h, mesh |-> mesh, placed |-> placed, broken 
                      h |-> comp[b][i].h, zb |-> comp[b][i].zb, zt |-> comp[b][i].zt,
                      lin |-> comp[b][i].lin, T |-> comp[b][i].T,
                      ndr |-> RDiv(comp[b][i].lin, Sq(LF(A.mat[b][i], comp[b][i].T))),
-                     mass |-> RDiv(MassOf(b, i), RInt(A.hs[b])),
+                     mass |-> ObsMass(b, i),
                      lower |-> IF MultiLinked THEN "" ELSE NameOf(b - 1, Lower(b, i)),
                      upper |-> IF MultiLinked THEN "" ELSE NameOf(b + 1, Upper(b, i))]]]]
 \* which literal clauses fail on this state (so that the harness can pick the shortest refutation and run it on armi)
